@@ -532,6 +532,11 @@ pub fn gen_wire(seed: u64, tier: &Tier, shard: usize, nshards: usize, emit: &mut
         }
         let mut rng = Rng::new(seed ^ ((i as u64) << 18) ^ 0x31BE);
         emit(format!("(case wire-{i})"));
+        if i < 16 {
+            // members advertised at a scoped / flow-labelled IPv6 address (and the plain control)
+            let (scope, flow) = [(0u64, 0u64), (3, 0), (0, 7), (2, 9)][i % 4];
+            emit(plist("scopecase", [scope.to_string(), flow.to_string(), if i % 8 < 4 { "syn" } else { "synack" }.to_string()]));
+        }
         // a node that receives the structure-aware datagrams
         emit(new_cmd(0, &node_id(1), "c", 100, DEFAULT_FD, "(pred none)", &[("k", "v")]));
         let nmem = match rng.below(10) {
